@@ -303,7 +303,7 @@ def correspondence(ctx):
 
     # --- public datetimes of annual Weas
     cases = []
-    for ts in ts_list + [7, 9]:
+    for ts in (ts_list if not ctx.quick else [1, 2] + rng.sample(ts_list[2:], 2)) + [7, 9]:
         for leap in (False, True):
             for onhour in ((False, True) if ts in (1, 2) else (rng.random() < 0.5,)):
                 idx = _axis_indices(rng, ts, leap, 20)
@@ -445,7 +445,7 @@ def correspondence(ctx):
 
     # --- from_file
     cases = []
-    budget = ctx.n(13000, 250000)
+    budget = ctx.n(9000, 250000)
     used = 0
 
     def add_read(ts, leap, lines, tag):
@@ -498,7 +498,7 @@ def correspondence(ctx):
     add_read(1, False, [], 'empty')
     add_read(2, True, [], 'empty')
     # every (hour, minute) through the sparse path: one day at 1-minute steps with one hole
-    for leap in (False, True):
+    for leap in ((rng.random() < 0.5,) if ctx.quick else (False, True)):
         day = 59 if leap else 100
         moys = [day * 1440 + k for k in range(1440) if k != 777]
         add_read(60, leap, _lines_of(leap, 60, moys, False, [k % 1000 for k in moys], [k % 997 for k in moys]),
@@ -530,6 +530,8 @@ def correspondence(ctx):
         leap = rng.random() < 0.5
         r = rng.random()
         if r < 0.06:                                     # annual: no datetimes key
+            if ctx.quick and ctx.counters.get('dict:annual', 0) >= 2:
+                continue
             ts = rng.choice([1, 1, 2])
             n = _hours(leap) * ts
             dn = rng.choice([n, n, n - 1, n + 24 * ts])
@@ -688,6 +690,37 @@ def correspondence(ctx):
     compare_batch(ctx, 'const', cases,
                   lambda c: ('const %d ' % c[0] + ' '.join(' '.join(t) + ' |' for t, _ in c[1])).rstrip(),
                   impl_const, canon=_canon_ws, key=lambda c: json.dumps(c))
+    # --- hour -> minute conversion of filter_by_hoys (observed through the step an annual Wea returns)
+    cases = []
+    for ts in ([3, rng.choice([5, 6, 10, 12])] if ctx.quick else [3, 5, 6, 10, 12, 15, 20]):
+        step = 60 // ts
+        n = 8760 * ts
+        hs = []
+        for _ in range(ctx.n(40, 400)):
+            k = rng.choice([rng.randrange(n), 24 * ts + rng.randrange(24 * ts)])
+            m = k * step
+            h = rng.choice([m / 60.0, m / 60.0, (m // 60) + (m % 60) / 60.0, m / 60.0 + 1e-9, m / 60.0 - 1e-9,
+                            m / 60.0 + 0.4 / 60, max(0.0, m / 60.0 - 0.4 / 60)])
+            hs.append(h)
+            ctx.count('hoymoy:minute_%02d' % (m % 60))
+        cases.append((ts, hs))
+    def impl_hoymoy(c):
+        # observed on a discontinuous Wea holding exactly the targeted steps (the continuous
+        # collections only accept hours that are bit-equal to their own `hoys`)
+        ts, hs = c
+        moys = sorted(set(int(round(h * 60)) for h in hs))
+        w = _build_disc(ts, False, moys)
+        out = []
+        for h in hs:
+            r = w.filter_by_hoys([h])
+            a, b = r.direct_normal_irradiance, r.diffuse_horizontal_irradiance
+            if len(a.datetimes) != 1 or a.datetimes != b.datetimes or a.values[0] + len(moys) != b.values[0]:
+                return 'not-one-aligned-step'
+            out.append(str(a.datetimes[0].moy))
+        return 'ok ' + ' '.join(out)
+
+    compare_batch(ctx, 'hoymoy', cases, lambda c: 'hoymoy ' + ' '.join(_fbits(h) for h in c[1]), impl_hoymoy,
+                  key=lambda c: (c[0], tuple(repr(h) for h in c[1])))
     cases = [0, 5, 6, 7, 8766]
     compare_batch(ctx, 'count', cases, lambda c: 'count %d' % c, lambda c: 'ok %d' % _count_file(c))
 
@@ -790,6 +823,8 @@ def _expected_positions(w, f, ts, leap):
         return [pos[m] for m in _ap_pred_moys(*(f['args'] + [ts, leap])) if m in pos]
     if kind in ('moys', 'hoys'):
         return [pos[m] for m in f['moys'] if m in pos]
+    if kind == 'hoys_ap':               # the float hours AnalysisPeriod.hoys reports for a period
+        return [pos[m] for m in _ap_pred_moys(*(f['args'] + [ts, leap])) if m in pos]
     if kind == 'pattern':
         pat = f['pattern']
         return [i for i in range(len(src)) if pat[i % len(pat)]]
@@ -814,6 +849,11 @@ def _apply_filter(w, f, ts, leap):
         return w.filter_by_moys(f['moys']), want
     if kind == 'hoys':
         return w.filter_by_hoys([m / 60.0 for m in f['moys']]), want
+    if kind == 'hoys_ap':
+        hoys = list(AnalysisPeriod(*(f['args'] + [ts, leap])).hoys)
+        if f.get('shuffle'):
+            random.Random(f['shuffle']).shuffle(hoys)
+        return w.filter_by_hoys(hoys), want
     if kind == 'pattern':
         return w.filter_by_pattern(f['pattern']), want
     return w.filter_by_sun_up(f['min_alt']), want
@@ -971,7 +1011,10 @@ def check_case(op, inp):
         src = _coll_rows(w)
         got = _coll_rows(r)
         want_rows = [src[i] for i in want]
-        if f['kind'] in ('moys', 'hoys'):
+        if len(set(r[:5] for r in got)) != len(got):
+            return {'required': 'each selected step once', 'observed': '%d rows, %d distinct steps' % (len(got), len(set(r[:5] for r in got))),
+                    'sig': dict(sig, what='step twice')}
+        if f['kind'] in ('moys', 'hoys', 'hoys_ap'):
             want_rows, got = sorted(want_rows), sorted(got)      # order of list filters is C02's (request vs source)
         d = _first_diff(want_rows, got)
         if d:
@@ -980,7 +1023,7 @@ def check_case(op, inp):
         for row in got:                                       # both values come from one source position
             if row[6] != row[5] + n:
                 return {'required': 'dhi id = dni id + %d' % n, 'observed': row, 'sig': dict(sig, what='pairing')}
-        if inp.get('then_write') and len(r) >= 1 and f['kind'] not in ('moys', 'hoys'):
+        if inp.get('then_write') and len(r) >= 1 and f['kind'] not in ('moys', 'hoys', 'hoys_ap'):
             return _check_file_rt(r, ts, leap, dict(sig, kind='filtered'))
         return None
     if op == 'epw':
@@ -1096,7 +1139,8 @@ def _check_epw(inp):
         if inp.get('to_wea'):
             tmp_epw = os.path.join(_tmpdir(), 'copy_' + inp['file'])
             shutil.copy(path, tmp_epw)
-            out = EPW(tmp_epw).to_wea(_tmpfile())
+            e1 = EPW(tmp_epw)
+            out = e1.to_wea(_tmpfile())
             got = open(out).read()
             os.remove(out)
             if got != w.to_file_string():
@@ -1104,7 +1148,7 @@ def _check_epw(inp):
                         'observed': _first_diff(w.to_file_string().split('\n'), got.split('\n')), 'sig': dict(sig, what='to_wea')}
             hoys = inp.get('hoys')
             if hoys:
-                out = EPW(tmp_epw).to_wea(_tmpfile(), hoys)
+                out = e1.to_wea(_tmpfile(), hoys)
                 got = open(out).read()
                 os.remove(out)
                 want = w.header + ''.join(
@@ -1290,6 +1334,11 @@ FIXED_CORPUS = [
                  'loc': ['Suva', -18.13, 178.43, 12, 6.0]}),
     ('dict_rt', {'kind': 'sparse', 'ts': 2, 'leap': True, 'moys': [84960, 86400 - 30, 86400], 'mode': 1}),
     ('dict_rt', {'kind': 'partial', 'ts': 1, 'leap': True, 'period': [2, 29, 2, 29], 'mode': 0}),
+    # 20-minute Wea, the float hours of 2 Jan as AnalysisPeriod.hoys reports them (32.666... * 60 = 1959.99...)
+    ('filter', {'kind': 'annual', 'ts': 3, 'leap': False, 'period': [1, 1, 12, 31], 'mode': 0,
+                'filter': {'kind': 'hoys_ap', 'args': [1, 2, 0, 1, 2, 23]}}),
+    ('filter', {'kind': 'sparse', 'ts': 6, 'leap': True, 'moys': [1440 + 10 * k for k in range(144) if k % 3 != 2], 'mode': 0,
+                'filter': {'kind': 'hoys_ap', 'args': [1, 2, 6, 1, 2, 18]}}),
     ('dict_leap', {'ts': 1, 'moys': [k * 60 for k in range(24 * 60, 24 * 61)]}),
     ('cli', {'cmd': 'epw-to-wea', 'assets': 'epw', 'file': 'chicago.epw', 'ap': None, 'ts': 2, 'out': 'stdout'}),
 ]
@@ -1329,13 +1378,13 @@ def _oracle_cases(ctx):
     for c in FIXED_CORPUS:
         yield c
     # time axis
-    for ts in (VALID_TS if big else [1, 2, 4, rng.choice([3, 5, 6])]):
+    for ts in (VALID_TS if big else [1, 2, rng.choice([3, 4, 5, 6])]):
         for leap in (False, True):
             for onhour in ((False, True) if ts == 1 else (False,)):
                 n = _hours(leap) * ts
                 yield 'axis', {'ts': ts, 'leap': leap, 'onhour': onhour, 'idx': _axis_indices(rng, ts, leap, 300)}
     # file and dict round trips of directly built Weas
-    for _ in range(ctx.n(170, 3000) * (3 if ctx.searching else 1)):
+    for _ in range(ctx.n(140, 3000) * (3 if ctx.searching else 1)):
         ts = rng.choice([1, 1, 2, 3, 4, 6]) if rng.random() < 0.7 else rng.choice(VALID_TS)
         leap = rng.random() < 0.5
         mode = rng.choice([0, 1])
@@ -1357,12 +1406,13 @@ def _oracle_cases(ctx):
             inp['loc'] = loc
         yield rng.choice(['file_rt', 'file_rt', 'dict_rt']), inp
     for ts, leap in ([(1, True)] if not big else [(t, l) for t in (1, 2, 3, 4, 6) for l in (False, True)]):
-        yield 'file_rt', {'kind': 'annual', 'ts': ts, 'leap': leap, 'period': [1, 1, 12, 31], 'mode': 0}
+        if big:                                   # quick: the fixed corpus holds the annual leap-year file
+            yield 'file_rt', {'kind': 'annual', 'ts': ts, 'leap': leap, 'period': [1, 1, 12, 31], 'mode': 0}
         yield 'dict_rt', {'kind': 'annual', 'ts': ts, 'leap': leap, 'period': [1, 1, 12, 31], 'mode': 0}
     # filters (source: annual / partial / sparse), some followed by a file round trip
     bases = {}
     for _ in range(ctx.n(60, 1400) * (3 if ctx.searching else 1)):
-        ts = rng.choice([1, 1, 2, 3, 4])
+        ts = rng.choice([1, 1, 2, 3, 4, 6])
         leap = rng.random() < 0.5
         r = rng.random()
         if r < 0.3:
@@ -1386,6 +1436,39 @@ def _oracle_cases(ctx):
         inp.update(mode=0, filter=f, then_write=rng.random() < 0.5)
         ctx.count('filter:%s_on_%s' % (f['kind'], inp['kind']))
         yield 'filter', inp
+    # filter_by_hoys with the float hours of AnalysisPeriod.hoys on sub-hourly Weas of every timestep
+    # (x:20, x:40, x:12 ... are not binary fractions of an hour): annual, partial and sparse sources
+    sub = [3, 5, 6, 10, 12, 15, 20, 30]
+    for ts in ([3] + rng.sample(sub[1:], 4) if not big else sub + [60]):
+        for srckind in ('annual', 'partial', 'sparse'):
+            leap = rng.random() < 0.5
+            nd = 366 if leap else 365
+            day = rng.choice([1, 58, 59, rng.randrange(nd - 1)])
+            (mo, da) = _md(leap, day)
+            (mo2, da2) = _md(leap, min(nd - 1, day + 1))
+            step = 60 // ts
+            if srckind == 'annual':
+                if ts > (6 if not big else 15):
+                    continue
+                inp = {'kind': 'annual', 'ts': ts, 'leap': leap, 'period': [1, 1, 12, 31]}
+            elif srckind == 'partial':
+                (m0, d0) = _md(leap, max(0, day - 1))
+                inp = {'kind': 'partial', 'ts': ts, 'leap': leap, 'period': [m0, d0, mo2, da2]}
+            else:
+                moys = [m for m in range(day * 1440, (day + 2) * 1440, step) if rng.random() < 0.6]
+                inp = {'kind': 'sparse', 'ts': ts, 'leap': leap, 'moys': moys or [day * 1440]}
+            sh, eh = rng.choice([(0, 23), (0, 23), (6, 18), (8, 8)])
+            f = {'kind': 'hoys_ap', 'args': [mo, da, sh, rng.choice([mo, mo2]) if mo2 >= mo else mo, da, eh]}
+            if f['args'][3] == mo2 and mo2 != mo:
+                f['args'][4] = da2
+            elif rng.random() < 0.5 and (mo2, da2) > (mo, da) and mo2 == mo:
+                f['args'][4] = da2
+            if rng.random() < 0.3:
+                f['shuffle'] = rng.randrange(1, 10 ** 6)
+            inp.update(mode=0, filter=f)
+            ctx.count('filter:hoys_ap_on_%s' % srckind)
+            ctx.count('filter:hoys_ap_ts=%d' % ts)
+            yield 'filter', inp
     # EPW sources
     files = _EPWS if big else [rng.choice(_EPWS)]
     for fn in files:
